@@ -59,7 +59,10 @@ def digest (d : DSt) (s0 : Sys) (a : Nat) (extra : List (String × Json) := []) 
   Json.mkObj ([
     ("ep", toJson a),
     ("wire", Json.arr ((s.net.drop s0.net.length).map packetJson).toArray),
-    ("delivered", Json.arr ((e.delivered.drop e0.delivered.length).map (fun x => parsedJson x.body)).toArray),
+    ("accepted", Json.arr ((e.delivered.drop e0.delivered.length).map (fun x => parsedJson x.body)).toArray),
+    ("handled", Json.arr ((e.handled.drop e0.handled.length).map (fun x => parsedJson x.body)).toArray),
+    ("pending", toJson (e.batch.length + e.staged.length)),
+    ("discarded", toJson (e.lost.length - e0.lost.length)),
     ("inflight", Json.arr infl.toArray),
     ("idx", toJson e.idx),
     ("raised", toJson e.raised),
@@ -85,21 +88,26 @@ def loopInfo (name : String) : LoopInfo :=
   (EkwVerif.Gen.RetryLoops.loops.find? (fun l => l.name == name)).getD
     { name := name, phase := .steady, feedsAck := true, callsRetry := true }
 
-/-- actions of one loop iteration in the order observed on the real code: `recvall L` drains the
-queue with the `feedsAck` flag of loop L taken from the generated table -/
+/-- actions of one loop iteration in the order observed on the real code: `collect` = one
+`_recv_one` that took a frame list off the queue; `take L stage` = the loop body of loop L takes the
+next message of the batch (`feedsAck` of L from the generated table); `commit` = `recv_events`
+returned; `abort` = the iteration was abandoned with messages untaken / events unreturned -/
 def actStep (a : Nat) (s : Sys) (j : Json) : Sys :=
   match asArr j with
   | [k, h, m] =>
     if asStr k == "send" then step s (Op.send a (asNat h) (asNat m))
-    else if asStr k == "recvall" then   -- ["recvall", loop, n]: only the first n messages are dispatched
-      drain s a (loopInfo (asStr h)).feedsAck (asNat m) (s.ep a).inbox.length
+    else if asStr k == "take" then
+      step s (Op.process a (loopInfo (asStr h)).feedsAck (match m with | Json.bool b => b | _ => false))
     else s
   | [k, x] =>
-    if asStr k == "pop" then step s (Op.popHost a (asNat x))
-    else if asStr k == "recvall" then
-      drain s a (loopInfo (asStr x)).feedsAck ((s.ep a).inbox.length + 1) (s.ep a).inbox.length
-    else s
-  | [k] => if asStr k == "retry" then step s (Op.retry a) else s
+    if asStr k == "pop" then step s (Op.popHost a (asNat x)) else s
+  | [k] =>
+    match asStr k with
+    | "retry" => step s (Op.retry a)
+    | "collect" => step s (Op.collect a)
+    | "commit" => step s (Op.commit a)
+    | "abort" => step s (Op.abort a)
+    | _ => s
   | _ => s
 
 def flushAll (dropTo : List Nat) : Nat → Sys → Sys
@@ -143,7 +151,11 @@ def c06Step (d : DSt) (j : Json) : DSt × Json :=
     | some k =>
       let dst := (d.sys.net[k]?.map (·.dst)).getD 0
       applyOps d dst [Op.dup k]
-  | "recv" => applyOps d a [Op.recv a (getBool j "feeds")]
+  | "recv" => applyOps d a [Op.collect a, Op.process a (getBool j "feeds") false]
+  | "inject" =>
+    let fs := (getArr j "frames").map frameOf
+    let s1 := inject d.sys a fs
+    ({ d with sys := s1, syns := addSyns d.syns (synsOfPackets [⟨a, fs⟩]) }, Json.mkObj [("inbox", toJson (s1.ep a).inbox.length)])
   | "retry" => applyOps d a [Op.retry a]
   | "tick" => applyOps d a [Op.tick a (getNat j "dt")]
   | "pop" => applyOps d a [Op.popHost a (getNat j "h")]
